@@ -32,6 +32,17 @@ def jobs(tier):
         for (rlab, need, rdecls) in alpha.optional_rules(tier):
             if set(need) <= opt:
                 out.append({"program": prog(H, scene + rdecls), "families": fams, "family": rlab})
+    # a task group as an operand of a precedence: the other task comes after the last / before the first member
+    from psmc.dsl import fixed, var, con, R
+    for scene in ([fixed("a", 1), fixed("b", 1), fixed("c", 1)], [fixed("a", 1), fixed("b", 2, optional=True), fixed("c", 1)]):
+        for gkw in ({"time_interval": (0, 3)}, {"time_interval": (1, 4)}, {"time_interval_length": 2}, {}):
+            for k in ("lax", "strict", "tight"):
+                for off in (0, 1):
+                    g = con("UnorderedTaskGroup", "g", list_of_tasks=[R("a"), R("b")], **gkw)
+                    out.append({"program": prog(H, scene + [g, con("TaskPrecedence", "c1", task_before=R("g"), task_after=R("c"), kind=k, offset=off)]),
+                                "families": fams, "family": "TaskPrecedence/group-before"})
+                    out.append({"program": prog(H, scene + [g, con("TaskPrecedence", "c1", task_before=R("c"), task_after=R("g"), kind=k, offset=off)]),
+                                "families": fams, "family": "TaskPrecedence/group-after"})
     if tier == "thorough":
         # horizon 5 for the two-task grid of the count/group constraints
         cons5 = [c for c in alpha.task_constraints_2(5, tier) if c[0] in ("ScheduleNTasksInTimeIntervals", "OrderedTaskGroup", "UnorderedTaskGroup", "TaskPrecedence")]
